@@ -27,6 +27,7 @@ type Config struct {
 	Table       string  `json:"table"`                     // "standard" | "short"
 	Amounts     string  `json:"amounts"`                   // "all" (every integer in range) | "classes" (threshold representatives)
 	BurnZero    bool    `json:"burn_count_zero,omitempty"` // options carry BurnCount 0 (e.g. built from a bare literal / JSON without the field)
+	Scene       *Scene  `json:"scene,omitempty"`           // what else happens in the process / happened to the game object (see scene.go)
 }
 
 func (c *Config) Seats() int { return len(c.Bankroll) }
@@ -107,6 +108,9 @@ func (c *Config) Options() *pf.GameOptions {
 // NewStarted returns a fresh real game for the configuration, started (it
 // waits at the initial ReadyRequested point).
 func (c *Config) NewStarted() (pf.Game, error) {
+	if c.Scene != nil {
+		return c.Scene.start(c, c.Options())
+	}
 	g := pf.NewGame(c.Options())
 	if err := g.Start(); err != nil {
 		return nil, err
@@ -135,6 +139,9 @@ func (c *Config) NewStartedShared() (pf.Game, error) {
 	})
 	h.mu.Lock()
 	defer h.mu.Unlock()
+	if c.Scene != nil {
+		return c.Scene.start(c, h.o)
+	}
 	g := pf.NewGame(h.o)
 	if err := g.Start(); err != nil {
 		return nil, err
@@ -143,5 +150,9 @@ func (c *Config) NewStartedShared() (pf.Game, error) {
 }
 
 func (c *Config) Short() string {
-	return fmt.Sprintf("n=%d br=%v a=%d sb=%d bb=%d db=%d dead=%v btn=%d %s deck=%s hole=%d/%d %s", c.Seats(), c.Bankroll, c.Ante, c.SB, c.BB, c.DealerBlind, c.DeadSB, c.Button, c.Limit, c.Deck, c.Hole, c.Required, c.Table)
+	s := fmt.Sprintf("n=%d br=%v a=%d sb=%d bb=%d db=%d dead=%v btn=%d %s deck=%s hole=%d/%d %s", c.Seats(), c.Bankroll, c.Ante, c.SB, c.BB, c.DealerBlind, c.DeadSB, c.Button, c.Limit, c.Deck, c.Hole, c.Required, c.Table)
+	if c.Scene != nil {
+		s += fmt.Sprintf(" scene=%s(n=%d,%d ops)", c.Scene.Kind, c.Scene.Other.Seats(), len(c.Scene.Hist))
+	}
+	return s
 }
